@@ -122,12 +122,16 @@ Lemma refuted_private_use :
 Proof. eexists. eexists. repeat split; vm_compute; reflexivity. Qed.
 
 Definition w_sp : list N := [97; 92; 32].                   (* a, backslash, space *)
-Lemma refuted_escaped_space :
-  exists lv, literal_value w_sp = Some lv /\ css_display lv = [34; 97; 92; 34] /\
-             token_denotes (css_display lv) (css_decode w_sp) = false /\ css_decode w_sp = [97; 32].
+(* 6aead77: an escaped space keeps its space; the token is well formed and denotes "a " *)
+Lemma escaped_space_example :
+  exists lv, literal_value w_sp = Some lv /\ css_display lv = [34; 97; 92; 32; 34] /\
+             token_denotes (css_display lv) (css_decode w_sp) = true /\ css_decode w_sp = [97; 32].
 Proof. eexists. repeat split; vm_compute; reflexivity. Qed.
 
 Definition w_sur : list N := [92; 100; 56; 48; 48].         (* \d800 *)
 Lemma refuted_invalid_code_point :
   store_dq w_sur = Some [100; 56; 48; 48] /\ css_decode w_sur = [65533].
 Proof. split; vm_compute; reflexivity. Qed.
+
+Lemma literal_10x : literal_value w_10x = Some (mkStr w_10x QDouble).
+Proof. vm_compute. reflexivity. Qed.
